@@ -543,17 +543,18 @@ func NewCall(pos *Position, fun Expression, args []Expression, isVariadic bool) 
 // String returns the string representation of n.
 func (n *Call) String() string {
 	s := n.Func.String()
-	switch fn := n.Func.(type) {
-	case *UnaryOperator:
-		if fn.Op == OperatorPointer || fn.Op == OperatorReceive {
-			s = "(" + s + ")"
-		}
-	case *FuncType:
-		if len(fn.Result) == 0 {
-			s = "(" + s + ")"
-		}
+	switch n.Func.(type) {
+	case *UnaryOperator, *BinaryOperator, *Default:
+		s = "(" + s + ")"
 	case *ChanType:
 		s = "(" + s + ")"
+	case *FuncType, *SliceType, *ArrayType, *MapType:
+		// A type that ends with a function type without result, as
+		// "[]func()": "[]func()(x)" would be read as a function type
+		// with result.
+		if strings.HasSuffix(s, ")") {
+			s = "(" + s + ")"
+		}
 	}
 	s += "("
 	for i, arg := range n.Args {
@@ -563,6 +564,16 @@ func (n *Call) String() string {
 		s += arg.String()
 	}
 	if n.IsVariadic {
+		// If the last argument ends with a number, as in "f(0...)", the
+		// dots would be read as part of the number.
+		i := len(s)
+		for i > 0 && (s[i-1] == '.' || s[i-1] == '_' || '0' <= s[i-1] && s[i-1] <= '9' ||
+			'a' <= s[i-1] && s[i-1] <= 'z' || 'A' <= s[i-1] && s[i-1] <= 'Z') {
+			i--
+		}
+		if i < len(s) && (s[i] == '.' || '0' <= s[i] && s[i] <= '9') {
+			s += " "
+		}
 		s += "..."
 	}
 	s += ")"
@@ -1022,7 +1033,27 @@ func NewIndex(pos *Position, expr Expression, index Expression) *Index {
 
 // String returns the string representation of n.
 func (n *Index) String() string {
-	return n.Expr.String() + "[" + n.Index.String() + "]"
+	return operandString(n.Expr) + "[" + n.Index.String() + "]"
+}
+
+// operandString returns the string representation of the operand of an
+// index, slicing, selector or type assertion expression: an operand that is
+// an unary or binary operation is in parentheses.
+func operandString(expr Expression) string {
+	switch expr.(type) {
+	case *UnaryOperator, *BinaryOperator, *Default,
+		*FuncType, *ChanType, *MapType, *ArrayType, *SliceType:
+		return "(" + expr.String() + ")"
+	}
+	return expr.String()
+}
+
+// isNumber reports whether expr is an integer or floating-point literal.
+func isNumber(expr Expression) bool {
+	if lit, ok := expr.(*BasicLiteral); ok {
+		return lit.Type == IntLiteral || lit.Type == FloatLiteral
+	}
+	return false
 }
 
 // Interface node represents an interface type.
@@ -1244,7 +1275,16 @@ func NewSelector(pos *Position, expr Expression, ident string) *Selector {
 
 // String returns the string representation of n.
 func (n *Selector) String() string {
-	return n.Expr.String() + "." + n.Ident
+	switch e := n.Expr.(type) {
+	case *UnaryOperator:
+		return n.Expr.String() + "." + n.Ident
+	case *BasicLiteral:
+		if isNumber(e) {
+			// "0.F" would be read as the number "0." followed by "F".
+			return "(" + n.Expr.String() + ")." + n.Ident
+		}
+	}
+	return operandString(n.Expr) + "." + n.Ident
 }
 
 // Send node represents a "send" statement.
@@ -1325,7 +1365,7 @@ func NewSlicing(pos *Position, expr, low, high Expression, max Expression, isFul
 
 // String returns the string representation of n.
 func (n *Slicing) String() string {
-	s := n.Expr.String() + "["
+	s := operandString(n.Expr) + "["
 	if n.Low != nil {
 		s += n.Low.String()
 	}
@@ -1449,10 +1489,15 @@ func NewTypeAssertion(pos *Position, expr Expression, typ Expression) *TypeAsser
 
 // String returns the string representation of n.
 func (n *TypeAssertion) String() string {
-	if n.Type == nil {
-		return n.Expr.String() + ".(type)"
+	expr := operandString(n.Expr)
+	if isNumber(n.Expr) {
+		// "0.(T)" would be read as the number "0." followed by "(T)".
+		expr = "(" + expr + ")"
 	}
-	return n.Expr.String() + ".(" + n.Type.String() + ")"
+	if n.Type == nil {
+		return expr + ".(type)"
+	}
+	return expr + ".(" + n.Type.String() + ")"
 }
 
 // TypeDeclaration node represents a type declaration, that is an alias
